@@ -438,8 +438,13 @@ func (u *upstream) doSlotsRefresh() error {
 	}
 	u.MakeRequestToHost(addr, req)
 
-	// wait done
-	req.Wait()
+	// wait done, but not for ever: a backend that accepts and never answers must
+	// not keep the refresh loop (and with it Stop) from ending.
+	select {
+	case <-req.done:
+	case <-u.quit:
+		return errors.New(upstreamExited)
+	}
 	resp := req.Response()
 	if resp.Type == Error {
 		return errors.New(string(resp.Text))
